@@ -435,10 +435,10 @@ def run_impl(case):
 
     if case["kind"] == "check_fh":
         from sktime.utils.validation.forecasting import check_fh
-        arg = x
-        if not case["raw"]:
-            arg = ForecastingHorizon(x, is_relative=flag)
-        out = attempt(lambda: check_fh(arg, enforce_relative=case["enforce"]), _fh)
+        def call():
+            arg = x if case["raw"] else ForecastingHorizon(x, is_relative=flag)
+            return check_fh(arg, enforce_relative=case["enforce"])
+        out = attempt(call, _fh)
         out["mutated"] = before != _snapshot(x)
         return out
 
